@@ -550,6 +550,7 @@ func (e *Effects) fixpoint() {
 				g[a.Var] = true
 			}
 		}
+		e.directGhostEvents(f, g)
 		e.ghostW[f] = g
 	}
 	changed := true
@@ -772,4 +773,73 @@ func (e *Effects) GlobalsRead(f *ssa.Function) map[string]bool {
 		}
 	}
 	return e.greads[f]
+}
+
+// directGhostEvents: ghost variables changed by the instructions of f itself:
+// channel events (ev_*_<name>), goroutine starts (ev_go) and the ghost clauses
+// of extern / interface-method contracts it calls.
+func (e *Effects) directGhostEvents(f *ssa.Function, g map[string]bool) {
+	ev := func(name string, kinds ...string) {
+		if name == "" {
+			return
+		}
+		for _, k := range kinds {
+			if _, ok := e.C.Ghosts["ev_"+k+"_"+name]; ok {
+				g["ev_"+k+"_"+name] = true
+			}
+		}
+	}
+	for _, b := range f.Blocks {
+		for _, ins := range b.Instrs {
+			switch ins := ins.(type) {
+			case *ssa.Send:
+				ev(chanVarName(ins.Chan), "send", "sent")
+			case *ssa.UnOp:
+				if ins.Op.String() == "<-" {
+					ev(chanVarName(ins.X), "recv", "val", "bytes", "closed")
+				}
+			case *ssa.Select:
+				for _, s := range ins.States {
+					if s.Dir == types.SendOnly {
+						ev(chanVarName(s.Chan), "send", "sent")
+					} else {
+						ev(chanVarName(s.Chan), "recv", "val", "bytes", "closed")
+					}
+				}
+			case *ssa.Go:
+				if _, ok := e.C.Ghosts["ev_go"]; ok {
+					g["ev_go"] = true
+				}
+			}
+			ci, ok := ins.(ssa.CallInstruction)
+			if !ok {
+				continue
+			}
+			if _, isGo := ins.(*ssa.Go); isGo {
+				continue
+			}
+			cc := ci.Common()
+			if bi, ok := cc.Value.(*ssa.Builtin); ok && bi.Name() == "close" && len(cc.Args) > 0 {
+				ev(chanVarName(cc.Args[0]), "close")
+				continue
+			}
+			var fc *FuncContract
+			if cc.IsInvoke() {
+				key := "(" + types.TypeString(cc.Value.Type(), func(p *types.Package) string {
+					if p.Path() == bclPath {
+						return ""
+					}
+					return p.Name()
+				}) + ")." + cc.Method.Name()
+				fc = e.C.Funcs[key]
+			} else if sc := cc.StaticCallee(); sc != nil && sc.Blocks == nil {
+				fc = e.C.Funcs[e.P.FuncName(sc)]
+			}
+			if fc != nil {
+				for _, a := range fc.Ghost {
+					g[a.Var] = true
+				}
+			}
+		}
+	}
 }
